@@ -160,7 +160,7 @@ func propC16(r *kernel.Run) {
 		}
 		w.Quiesce()
 		w.Take()
-		r.FP(stateKind, len(extras), extrasClass(extras))
+		r.FP(stateKind, extras, nodeW.SW != nil, w.Net.Frag, loader)
 		if ci == 0 && r.Index%200 == 0 {
 			r.SetSample(map[string]any{"client_state": stateKind, "extra_alpn": extras, "client_hello_alpn_entries": len(res.hello), "client_next_protos": truncList(conn.conn.ClientNextProtos())})
 		}
